@@ -179,6 +179,19 @@ PROPS['C17'] = dict(
                  'check-tx and simulate modes build the EVM through the same NewEVM as deliver and query (regenerated call list); only deliver-context and query paths are executed'],
 )
 
+PROPS['C15'] = dict(
+    lean_modules=['Model.World', 'Model.StateDB', 'Proofs.World', 'Properties.C15', 'Facts.StateDB'],
+    facts=['*'],
+    theorems=['C15_destroy_needs_unprotected', 'C15_delete_complete', 'C15_commit_keeps_protected', 'C15_no_silent_delete',
+              'C15_locked_never_spent', 'C15_subBalance_respects_lock', 'destroyAccount_ok', 'burnAll_keeps', 'destroyAccount_others',
+              'protected_not_destroyable', 'fact_destroy_guard_block_time', 'fact_destroy_removes_everything', 'fact_commit_sorted'],
+    engines=[dict(name='statedb', test='TestEngineStatedb', quick=6000, thorough=120000, thorough_seeds=3)],
+    rule='random cStateDb API sequences on a context whose block time lies in the past (so that a wall-clock guard would disagree with the model), over fixtures: fee-collector and EVM module accounts, delayed vesting accounts (unexpired funded, expired funded, end time between block time and wall clock), base / contract / storage-only / balance-only / empty accounts with two denominations; ops include touch (zero-value AddBalance), pay, CreateAccount collision, Suicide, Selfdestruct6780, commit with and without deleteEmpty; full dump of accounts, balances, code hashes, storage after every op; non-trivial = a real op line; distinct by op-line hash',
+    assumptions=['x/bank enforces vesting locks in SendCoins (trusted SDK code; exercised: a SubBalance beyond the spendable amount panics)',
+                 'the interpreter reaches accounts only through the StateDB API the engine drives (touch, Transfer, CreateAccount, Suicide)',
+                 'only delayed vesting accounts are in the fixture; the guard reads GetEndTime() which all vesting kinds implement'],
+)
+
 NOT_APPLICABLE = {}
 HOOK_COMMITS = ['6892cbf4753434ae03c9f54a2d1a2dc6d5dfb558']
 
